@@ -345,7 +345,8 @@ fn main() {
     let (sc_addr, gov_addr, listed) = gen_addresses(&mut rng, &m, &target_net);
     // The alias id the output itself carries is independent of the DID the caller unpacks for: the statement's
     // expectation is the model rendered for the DID that is PASSED IN, whatever the output says about itself.
-    let aid_kind: &str = *rng.pick(&ALIAS_ID_KINDS);
+    // cycled (not drawn) so that every scale sees every kind
+    let aid_kind: &str = ALIAS_ID_KINDS[(i % ALIAS_ID_KINDS.len() as u64) as usize];
     let out_tag: Option<Vec<u8>> = match aid_kind {
       "target-tag" => Some(target_tag.clone()),
       "null" => None,
@@ -403,10 +404,19 @@ fn main() {
     rep.inc("alias_output_unpacked");
     rep.inc(if same { "alias_output_same_did" } else { "alias_output_other_did" });
     rep.inc(&format!("alias_output_target_{}", relation.replace('-', "_")));
-    // a document that is not the model rendered for the DID passed in gets its own signature when the output's alias id
-    // is not that DID's tag (the library has then taken the DID from somewhere else than its argument)
-    let prefix = if !aid_differs { "alias-output" } else if out_tag.is_none() { "alias-output:null-alias-id" } else { "alias-output:alias-id-not-of-passed-did" };
-    let Some(j) = judge(&mut rep, prefix, &got, &m, &target, &target_net, &sc_addr, &case) else { continue };
+    // the document must be the one for the DID passed in; a document issued for the DID the OUTPUT names instead is one
+    // root cause of its own (signature says where the id came from), everything else goes through the general judgement
+    let got_id = got.id().to_string();
+    if got_id != target {
+      let from_output = out_tag.as_ref().map(|t| got_id == did_str(&target_net, t)).unwrap_or(false);
+      rep.violation(
+        if from_output { "alias-output:document-id-taken-from-output-alias-id-not-passed-did" } else { "alias-output:document-id-not-the-passed-did" },
+        &format!("unpack_from_output for {} returned a document with id {} (alias id of the output: {}, document packed as {})", target, got_id, case["output_alias_id"], m.me),
+        case,
+      );
+      continue;
+    }
+    let Some(j) = judge(&mut rep, "alias-output", &got, &m, &target, &target_net, &sc_addr, &case) else { continue };
     rep.inc(&format!("alias_output_alias_id_{}", aid_kind.replace('-', "_")));
     if aid_differs {
       rep.inc("alias_output_alias_id_differs_from_passed_did");
